@@ -972,6 +972,9 @@ class _Gen:
         if r.random() < .3:
             m = r.choice([m for m in s.mods if not m.is_pkg])
             rules.append(f'HIDDEN:{s.modname(m.mid)}')
+        if len(s.roots()) >= 2 and r.random() < .5:
+            # one of several roots is hidden as a whole (a test package documented next to the library, say)
+            rules.append(f"HIDDEN:{s.modname(r.choice(s.roots()[1:]).mid)}")
         # a rule on one member of a class that other classes derive from (they inherit the member without overriding it)
         anc = s.notes.get('anc', {})
         base_uids = {b for a in anc.values() for b in a if b is not None}
